@@ -1,7 +1,7 @@
 META = {
     "rule": ("seeded observation sets (1-60 epochs; clustered so the largest empty arc is interior, across the "
              "1->0 boundary, or tied; default and explicit t_ref) x periods from below the cadence to above the "
-             "baseline (days/years/hours) x n_bins 1-50, and sample tables of 1-500 rows with ties in "
+             "baseline (days/years/hours) x every n_bins in 1..64 (and 100, 360), and sample tables of 1-500 rows with ties in "
              "ln_prior+ln_likelihood. Each call of the real max_phase_gap / phase_coverage / periods_spanned / "
              "MAP_sample is compared with an independent longdouble definition; metamorphic twins: permuted "
              "observations, time-reversed pattern (max_phase_gap). distinct_nontrivial = distinct "
@@ -132,7 +132,8 @@ def run(ctx):
                               dict(desc, got=got, got_reversed=got_r, tc=tc))
 
             # ---- phase_coverage
-            n_bins = int(rng.choice([1, 2, 3, 5, 10, 17, 50]))
+            # every bin count, not a handful: float-step bin edges go wrong only for particular counts (6, 9, 21, 24, ...)
+            n_bins = int(rng.integers(1, 65)) if rng.random() < 0.8 else int(rng.choice([1, 2, 10, 100, 360]))
             x = np.asarray(ph * n_bins, dtype=np.longdouble)
             edge_dist = np.min(np.abs(x - np.round(x)))
             if edge_dist < 1e-7 + n_bins * tol:
